@@ -258,6 +258,35 @@ INT_FUNCS = ["abs", "coalesce"]
 STR_FUNCS = ["lower", "upper", "coalesce"]
 AGG = ["count", "sum", "max", "min"]
 CAST_TYPES = ["Integer", "String", "Float", "Numeric", "BigInteger", "Text"]
+# a type is named by a string ("Integer") or by [name, positional args, keyword args].  The argument
+# variants deliberately include values that are falsy but significant (0, False, "") next to None / omitted.
+TYPE_ARG_VARIANTS = {
+    "Numeric": [[[], {}], [[10], {}], [[10, 0], {}], [[10, 2], {}], [[None, 0], {}], [[12, 4], {}], [[10, 2], {"asdecimal": False}],
+                [[10], {"decimal_return_scale": 0}], [[10], {"decimal_return_scale": 3}]],
+    "Float": [[[], {}], [[], {"decimal_return_scale": 0}], [[], {"decimal_return_scale": 4}], [[], {"asdecimal": True}],
+              [[24], {}], [[0], {}], [[53], {}]],
+    "String": [[[], {}], [[0], {}], [[30], {}], [[30], {"collation": ""}], [[30], {"collation": "C"}]],
+    "Text": [[[], {}], [[0], {}], [[1000], {}]],
+    "Boolean": [[[], {}], [[], {"create_constraint": False}], [[], {"create_constraint": True, "name": "ckb"}]],
+    "Integer": [[[], {}]],
+    "BigInteger": [[[], {}]],
+    "Date": [[[], {}]],
+}
+
+
+def type_name(t):
+    return t if isinstance(t, str) else t[0]
+
+
+def type_arg_variants(t, rng):
+    """the same type class with other constructor arguments"""
+    name = type_name(t)
+    cur = [[], {}] if isinstance(t, str) else [t[1], t[2]]
+    alts = [v for v in TYPE_ARG_VARIANTS.get(name, []) if v != cur]
+    if not alts:
+        return None
+    a = rng.choice(alts)
+    return [name, a[0], a[1]]
 
 
 class Gen:
@@ -307,13 +336,14 @@ class Gen:
                 return ["func", "length", [r.choice(scols)]]
             return ["neg", self.e_int(scope, d - 1)]
         if c < 0.88:
-            return ["cast", self.e_int(scope, d - 1), r.choice(["Integer", "BigInteger", "Numeric"])]
+            t = r.choice(["Integer", "BigInteger", "Numeric", "Numeric", "Float"])
+            return ["cast", self.e_int(scope, d - 1), (type_arg_variants(t, r) or t) if r.random() < 0.6 else t]
         if c < 0.90:
             return ["bind", self.fresh("bp"), "int", {"callable": True} if r.random() < 0.3 else {}]
         if c < 0.93:
             return ["abind", "int", {"callable": True} if r.random() < 0.5 else {}]
         if c < 0.96 and cols:
-            return ["type_coerce", r.choice(cols), "Integer"]
+            return ["type_coerce", r.choice(cols), r.choice(["Integer", ["Numeric", [10, 0], {}], ["Numeric", [10], {}], ["Float", [], {"asdecimal": True}]])]
         return ["scalar", self.simple_scalar(scope)]
 
     def e_str(self, scope, d):
@@ -332,7 +362,8 @@ class Gen:
                 return ["func", "coalesce", [self.e_str(scope, d - 1), ["lit", "str"]]]
             return ["func", f, [self.e_str(scope, d - 1)]]
         if c < 0.88:
-            return ["cast", self.e_int(scope, d - 1), r.choice(["String", "Text"])]
+            t = r.choice(["String", "Text"])
+            return ["cast", self.e_int(scope, d - 1), (type_arg_variants(t, r) or t) if r.random() < 0.5 else t]
         if c < 0.93:
             return ["abind", "str", {"callable": True} if r.random() < 0.5 else {}]
         return ["case", [[self.e_bool(scope, d - 1), self.e_str(scope, d - 1)]], ["lit", "str"]]
@@ -489,6 +520,8 @@ class Gen:
             ic = self.cols_of(scope, "int")
             if ic:
                 fl = {"callable": True} if r.random() < 0.5 else {}
+                if r.random() < 0.3:
+                    fl["type"] = type_arg_variants("Numeric", r)
                 b = ["abind", "int", fl] if r.random() < 0.6 else ["bind", self.fresh("bp"), "int", fl]
                 where.append(["bin", r.choice(CMP), r.choice(ic), b])
         if orm and froms[0][0] == "ent" and r.random() < 0.2:
@@ -551,8 +584,14 @@ class Gen:
                 rels = [j for j in JOINS if j[0] == ek]
                 if rels and r.random() < 0.5:
                     j = r.choice(rels)
-                    opts.append([r.choice(["selectinload", "joinedload", "subqueryload", "lazyload", "noload", "raiseload"]),
-                                 ENTITY_OF[ek], j[4]])
+                    o = [r.choice(["selectinload", "joinedload", "subqueryload", "lazyload", "noload", "raiseload"]),
+                         ENTITY_OF[ek], j[4]]
+                    if r.random() < 0.45:
+                        # relationship criteria Rel.and_(...) carrying their own bound values
+                        fl = {"literal_execute": True} if r.random() < 0.5 else {}
+                        rhs = ["abind", "int", fl] if r.random() < 0.7 else ["lit", "int"]
+                        o.append(["bin", r.choice(CMP), ["col", j[1], "id"], rhs])
+                    opts.append(o)
                 if r.random() < 0.25:
                     tgt = r.choice(["a", "b", "c"])
                     opts.append(["loader_criteria", ENTITY_OF[tgt], ["bin", r.choice(CMP), ["col", tgt, "id"], ["lit", "int"]]])
@@ -669,7 +708,7 @@ class Gen:
         spec = {"k": "text", "sql": f"SELECT id, {col} FROM {t} WHERE {col} {op} :p1 AND id > :p2 ORDER BY id",
                 "binds": ["p1", "p2"]}
         if r.random() < 0.5:
-            spec["columns"] = [["id", "Integer"], [col, "Integer"]]
+            spec["columns"] = [["id", "Integer"], [col, r.choice(["Integer", ["Numeric", [10], {}], ["Numeric", [10, 0], {}], ["Float", [], {}]])]]
             if r.random() < 0.5:
                 spec["wrap"] = "subquery"
         return spec
@@ -693,10 +732,14 @@ class Builder:
         self.named = {}  # explicit bindparam name -> value (for .params / execution)
 
     # ---- helpers
-    def type_(self, name):
+    def type_(self, t):
         sa = self.sa
-        return {"Integer": sa.Integer, "String": sa.String, "Float": sa.Float, "Numeric": sa.Numeric,
-                "BigInteger": sa.BigInteger, "Text": sa.Text, "Boolean": sa.Boolean, "Date": sa.Date}[name]()
+        name = type_name(t)
+        cls = {"Integer": sa.Integer, "String": sa.String, "Float": sa.Float, "Numeric": sa.Numeric,
+               "BigInteger": sa.BigInteger, "Text": sa.Text, "Boolean": sa.Boolean, "Date": sa.Date}[name]
+        if isinstance(t, str):
+            return cls()
+        return cls(*t[1], **t[2])
 
     def tag_type(self, tag):
         sa = self.sa
@@ -739,20 +782,23 @@ class Builder:
             kw = {}
             if flags.get("literal_execute"):
                 kw["literal_execute"] = True
+            typ = self.type_(flags["type"]) if flags.get("type") else self.tag_type(kind)
             if flags.get("callable"):
                 # value supplied by a callable evaluated at execution time (the form the ORM lazy loader uses)
-                return sa.bindparam(name, callable_=(lambda v=v: v), type_=self.tag_type(kind), **kw)
+                return sa.bindparam(name, callable_=(lambda v=v: v), type_=typ, **kw)
             if flags.get("notype"):
                 return sa.bindparam(name, v, **kw)
-            return sa.bindparam(name, v, type_=self.tag_type(kind), **kw)
+            return sa.bindparam(name, v, type_=typ, **kw)
         if h == "abind":
             # anonymous (unique) bind parameter, value form or callable form: both forms of one statement
             # shape share a cache key
             _, kind, flags = node
             v = self.lit(kind)
+            typ = self.type_(flags["type"]) if flags.get("type") else self.tag_type(kind)
+            kw = {"literal_execute": True} if flags.get("literal_execute") else {}
             if flags.get("callable"):
-                return sa.bindparam(None, callable_=(lambda v=v: v), type_=self.tag_type(kind))
-            return sa.bindparam(None, v, type_=self.tag_type(kind))
+                return sa.bindparam(None, callable_=(lambda v=v: v), type_=typ, **kw)
+            return sa.bindparam(None, v, type_=typ, **kw)
         if h == "rel_eq":
             # relationship == instance: the ORM renders bind parameters whose callables read the instance
             _, fk, rel, target = node
@@ -1009,7 +1055,11 @@ class Builder:
         h = o[0]
         if h in ("selectinload", "joinedload", "subqueryload", "lazyload", "noload", "raiseload", "immediateload",
                  "defaultload", "contains_eager"):
-            return getattr(orm, h)(getattr(ents[o[1]], o[2]))
+            attr = getattr(ents[o[1]], o[2])
+            if len(o) > 3 and o[3] is not None:
+                tkey = [j[1] for j in JOINS if ENTITY_OF[j[0]] == o[1] and j[4] == o[2]][0]
+                attr = attr.and_(self.expr(o[3], {tkey: ents[ENTITY_OF[tkey]]}))
+            return getattr(orm, h)(attr)
         if h in ("defer", "undefer", "load_only"):
             return getattr(orm, h)(getattr(ents[o[1]], o[2]))
         if h == "loader_criteria":
@@ -1243,9 +1293,15 @@ def _node_mutations(node, rng, frommap=None, top=True):
         elif h == "label":
             out.append(("labelname", ["label", node[1] + "z", node[2]]))
         elif h == "cast":
-            out.append(("casttype", ["cast", node[1], _other(rng, CAST_TYPES, node[2])]))
+            out.append(("casttype", ["cast", node[1], _other(rng, CAST_TYPES, type_name(node[2]))]))
+            alt = type_arg_variants(node[2], rng)
+            if alt:
+                out.append(("typearg", ["cast", node[1], alt]))
         elif h == "type_coerce":
-            out.append(("casttype", ["type_coerce", node[1], _other(rng, ["Integer", "Float", "Numeric"], node[2])]))
+            out.append(("casttype", ["type_coerce", node[1], _other(rng, ["Integer", "Float", "Numeric"], type_name(node[2]))]))
+            alt = type_arg_variants(node[2], rng)
+            if alt:
+                out.append(("typearg", ["type_coerce", node[1], alt]))
         elif h == "col":
             fk, cn = node[1], node[2]
             key = (frommap or {}).get(fk)
@@ -1266,10 +1322,23 @@ def _node_mutations(node, rng, frommap=None, top=True):
             fl3["callable"] = not fl3.get("callable")
             fl3.pop("notype", None)
             out.append(("bindcallable", ["bind", node[1], node[2], fl3]))
+            alt = type_arg_variants(node[3].get("type") or {"int": "Numeric", "str": "String", "float": "Float"}.get(node[2], "Numeric"), rng)
+            if alt and not node[3].get("notype"):
+                fl4 = dict(node[3])
+                fl4["type"] = alt
+                out.append(("typearg", ["bind", node[1], node[2], fl4]))
         elif h == "abind":
             fl = dict(node[2])
             fl["callable"] = not fl.get("callable")
             out.append(("bindcallable", ["abind", node[1], fl]))
+            alt = type_arg_variants(node[2].get("type") or {"int": "Numeric", "str": "String", "float": "Float"}.get(node[1], "Numeric"), rng)
+            if alt:
+                fl4 = dict(node[2])
+                fl4["type"] = alt
+                out.append(("typearg", ["abind", node[1], fl4]))
+            fl5 = dict(node[2])
+            fl5["literal_execute"] = not fl5.get("literal_execute")
+            out.append(("bindflag", ["abind", node[1], fl5]))
             out.append(("littype", ["abind", {"int": "float", "str": "like", "float": "int"}.get(node[1], "int"), node[2]]))
         elif h == "not":
             out.append(("unwrap_not", node[1]))
@@ -1448,12 +1517,18 @@ def _node_mutations(node, rng, frommap=None, top=True):
             out.append(("text_sql", n))
             if node.get("columns"):
                 n = dict(node)
-                n["columns"] = [[node["columns"][0][0], _other(rng, ["Integer", "BigInteger", "String"], node["columns"][0][1])]] + node["columns"][1:]
+                n["columns"] = [[node["columns"][0][0], _other(rng, ["Integer", "BigInteger", "String"], type_name(node["columns"][0][1]))]] + node["columns"][1:]
                 out.append(("text_coltype", n))
+                last = node["columns"][-1]
+                alt = type_arg_variants(last[1] if not isinstance(last[1], str) or last[1] in ("Numeric", "Float", "String") else "Numeric", rng)
+                if alt:
+                    n = dict(node)
+                    n["columns"] = node["columns"][:-1] + [[last[0], alt]]
+                    out.append(("typearg", n))
     return out
 
 
-def perturb(spec, rng, n=8, prefer=("bindcallable", "param_keys", "bindflag", "for_update_skip_locked", "prefix_dialect", "inlen")):
+def perturb(spec, rng, n=8, prefer=("typearg", "bindcallable", "param_keys", "bindflag", "for_update_skip_locked", "prefix_dialect", "inlen")):
     """up to ``n`` (tag, spec') near-copies, each differing from ``spec`` in one attribute;
     rare tags listed in ``prefer`` are taken first when available"""
     cands = []
